@@ -165,9 +165,10 @@ regression variants of the self-test / on the parent commit.
 | F19 | `glob('name', dir_fd=0)` looked a literal pattern up relative to the cwd: `_lexists` tested the descriptor for truthiness (magic patterns, scanned by `_iter`, used it) | C12-R7 (+) | fixed ca6a3d4 |
 | F20 | `fnmatch.translate('[(?#)x]')` returned `[x]`, `'[(?#)]'` an unterminated set: bracket text could spell the internal `(?#)` marker that translate strips; `fnmatch()` itself matched the four characters (reported by a sub-agent as an aside, reproduced) | C08-R3 (+) | fixed 91ccb9a (`#` is escaped inside brackets like the set operators) |
 | F21 | `globmatch('a/b/lnk/deep/f.txt', '**/b/**/f.txt', G, REALPATH)` True for a symlinked `lnk`, while `glob` does not return it: `_fs_match` kept the path prefix of the first `**` capture for later captures (sub-agent aside, reproduced) | C06-R3 | fixed 1c025f7 |
+| F22 | `fnmatch.translate('[a-[:alpha:][:digit:]]')` did not compile (`bad escape \A`) and `fnmatch('b', '[a-[:alpha:]!]')` was False: `WcParse._sequence` kept `end_range` set after a POSIX class had consumed the would-be range end, so the next class / character was treated as a range end again (sub-agent aside, reproduced) | C01-R7 / C10-R5 `range-end-cleared-by-posix` (+) | fixed a990a18 |
+| F23 | `fnmatch('b', '!(a)@(@(b))', E)`, `'!(a)?(!(b))'`, `'!(a)*(b/!(c))'` raised `re.error` (unbalanced regex, the defect named in the text of C10): `clean_up_inverse` zeroed the counter of open `!(…)` groups after scanning a *nested* list, so the placeholder of the outer list was never rewritten. The rule `clean_up_inverse/counter` had encoded `inv_ext = 0` as the expected behaviour; it now demands that the counter goes down by exactly the number of placeholders rewritten | C01-R6 (also under C10, C08) | fixed 37709ff |
 
-Defects known but **not** detected by any rule: `**(b)` losing its group, the `**`+MATCHBASE dot leak, `!(a)?(!(b))` producing an
-unbalanced regex, `glob('f/**')` returning `f/` for a regular file `f`, `expanduser` raising on an embedded NUL, the `**/` vs files
+Defects known but **not** detected by any rule: `**(b)` losing its group, the `**`+MATCHBASE dot leak, `glob('f/**')` returning `f/` for a regular file `f`, `expanduser` raising on an embedded NUL, the `**/` vs files
 discrepancy of glob/globmatch, `MATCHBASE` without `PATHNAME` through `_wcparse` directly raising `UnboundLocalError` (not reachable
 through the public flag masks; C10-R3 checks exactly that side condition).
 
@@ -190,11 +191,12 @@ TAIL = r'''### 6.5 Declined / not decided (honest limits)
   real trees, Bash equivalence, thread interleavings, `re.error` from unbalanced output.
 * Rules that are still syntactic (they look at statement structure, not at values) and could in principle alarm on an unusual
   refactoring: the START-typestate rule of `parse_extend` (C03-R3, CFG-based), the emission rules for `parse_extend` / `_handle_star`
-  separators (C02-R3, CFG guards), `_handle_dot` inline fragments, the exception-escape and definite-assignment analyses (by design over
-  the CFG), the recovery-pairing rule (C10-R4), the `link-verdict-is-final` and `base-rooted` parts of C06-R3, the budget-clamp
-  contradiction rule (C11-R4, over every function), who-may-write rules, `Glob._iter_patterns` dedupe rule (C13-R3), the sibling text
-  comparison of `WcSplit.parse_extend` / `_GlobSplit.parse_extend`. They compare conditions propositionally after canonicalisation
-  and inline single-assignment locals, and none of the 80 neutral refactorings trips them any more, but they are not value-based.
+  separators (C02-R3, CFG guards), the exception-escape and definite-assignment analyses (by design over the CFG), the recovery-pairing
+  rule (C10-R4), the `base-rooted` part of C06-R3 and the rooted-argument rule C04-R7 (def-use over names, guards resolved through
+  locals), the range-check guard of C10-R5, the budget-clamp contradiction rule (C11-R4, over every function), who-may-write rules, the
+  prologue extraction of the three `_sequence` scanners (C07-R6), the string-building site finders of `frag.py`. They compare conditions
+  propositionally after canonicalisation and inline single-assignment locals, and none of the 160 neutral refactorings trips them any
+  more, but they are not value-based. Each unseen set of refactorings so far found some rule of this kind (6.7); the next one may too.
 * When a function grows beyond what its table can enumerate (`max_paths`), or an anchor disappears, the rule reports
   `ANALYSIS-ERROR` (exit 2): undecided, never a silent pass.
 
